@@ -41,8 +41,22 @@ MAY_CALL_PROCESS_ORDER_PACKAGE = {
 }
 
 
+def validation_wrappers(func):
+    """methods of the request's class, other than _validate_controls itself, whose body calls _validate_controls
+    (a request may run the controls through such a wrapper)"""
+    out = {}
+    if func.cls is not None:
+        for m in func.cls.methods.values():
+            if m.name != "_validate_controls" and any(call_name(c) == "_validate_controls" for c in walk_calls(m.node.body)):
+                out[m.name] = m
+    return out
+
+
 def validation_node(cfg, func):
     ns = [n for n in cfg.live_nodes() if n.kind == "cond" and calls_in(n, "_validate_controls")]
+    if not ns:
+        wr = validation_wrappers(func)
+        ns = [n for n in cfg.live_nodes() if n.kind == "cond" and any(calls_in(n, w) for w in wr)]
     if len(ns) != 1:
         raise AnalysisError("%s: expected exactly one validation test, found %d" % (func.qual, len(ns)))
     n = ns[0]
@@ -82,6 +96,13 @@ def run(ctx, rep):
         f = prog.own_method("Transaction", mname)
         cfg = ctx.cfg(f)
         vnode, pass_lab, refuse_lab = validation_node(cfg, f)
+        # controls run through a wrapper: the wrapper itself must leave everything as it found it (what it
+        # changes before or while the controls run is still changed when they refuse)
+        for wname, wf in validation_wrappers(f).items():
+            if calls_in(vnode, wname):
+                own = eff.own_effects(wf, wf.node.body)
+                rep.check(not own, "R1", key(f, None, "the validation wrapper %s changes nothing itself" % wname), wf,
+                          own[0][0] if own else None, "; ".join(d for _, d in own[:3]))
         assume = {"force": False}
         if "execute" in f.params:
             assume["execute"] = True
